@@ -14,7 +14,7 @@ use serde_json::Value;
 pub fn def() -> PropDef {
     PropDef {
         id: "C14",
-        rule: "all four subsets of {ssse3, avx2} (exhaustive; intersected with what the CPU reports) x generated workloads (encode + decode rounds through ReedSolomonEncoder/Decoder, DefaultRate<DefaultEngine>, the one-shot functions, and raw DefaultEngine primitives; configurations small..medium, sizes with tails), plus raw DefaultEngine transforms over working sets drawn log-uniformly from 1 MiB to 512 MiB (quick) / 1 GiB (thorough). oracle: ISA trace recorded by the hooks in every #[target_feature] entry point: no entry point of an ISA outside the mask is reached; for best = max(mask) every primitive the workload necessarily exercises was executed by the best ISA and no weaker SIMD ISA ran; empty mask => no SIMD entry point at all; output bytes identical under all masks and equal to the explicit NoSimd engine. non-trivial: mask != full and the workload contains a decode; distinct by (workload, mask)",
+        rule: "all four subsets of {ssse3, avx2} (exhaustive; intersected with what the CPU reports) x generated workloads (encode + decode rounds through ReedSolomonEncoder/Decoder, DefaultRate<DefaultEngine>, the one-shot functions, and raw DefaultEngine primitives; configurations small..medium, sizes with tails), plus raw DefaultEngine transforms over working sets drawn log-uniformly from 1 MiB to 512 MiB (quick) / 1 GiB (thorough). Part masks_per_process (authoritative): every mask in its own fresh child process with the mask set before anything else runs, so that an implementation which caches runtime detection per process is judged correctly; parts masks / big_transforms: the same workloads with the mask switched per thread inside one process (skipped, with a note, when in-process switching turns out to be ineffective). oracle: ISA trace recorded by the hooks in every #[target_feature] entry point: no entry point of an ISA outside the mask is reached; for best = max(mask) every primitive the workload necessarily exercises was executed by the best ISA and no weaker SIMD ISA ran; empty mask => no SIMD entry point at all; output bytes identical under all masks and equal to the explicit NoSimd engine. non-trivial: mask != full and the workload contains a decode; distinct by (workload, mask)",
         assumptions: &[
             "decides the x86 selection logic; the AArch64 branch is cfg-ed out on this host",
             "calibration: explicit Avx2 / Ssse3 engines must produce their trace bits, otherwise the check is inconclusive (exit 2), never a violation",
@@ -26,6 +26,7 @@ pub fn def() -> PropDef {
 fn parts() -> Vec<Box<dyn PartDyn>> {
     vec![
         Box::new(Calibration),
+        Box::new(PerProcess),
         Box::new(GenPart { name: "masks", quick: 10_000, thorough: 60_000, shrink_iters: 300, strat: strategy, check }),
         Box::new(GenPart { name: "big_transforms", quick: 12, thorough: 300, shrink_iters: 20, strat: big_strategy, check: check_big }),
     ]
@@ -90,10 +91,11 @@ fn strategy(t: Tier) -> BoxedStrategy<MaskCase> {
         .boxed()
 }
 
-struct Obs {
-    trace: u32,
-    bytes: u64,
-    decoded_with_loss: bool,
+#[derive(Clone, Debug, Serialize, Deserialize)]
+pub struct Obs {
+    pub trace: u32,
+    pub bytes: u64,
+    pub decoded_with_loss: bool,
 }
 
 fn workload(c: &MaskCase) -> Result<Obs, String> {
@@ -156,15 +158,17 @@ fn isa_bits(isa: u32) -> u32 {
     0xF << (isa * 4)
 }
 
-fn check(c: &MaskCase, st: &mut Stats) -> CheckResult {
-    let cpu = (if Eng::Ssse3.available() { MASK_SSSE3 } else { 0 }) | (if Eng::Avx2.available() { MASK_AVX2 } else { 0 });
+fn cpu_mask() -> u8 {
+    (if Eng::Ssse3.available() { MASK_SSSE3 } else { 0 }) | (if Eng::Avx2.available() { MASK_AVX2 } else { 0 })
+}
+
+/// the rules of the property for one workload observed under the four masks
+fn judge(c: &MaskCase, obs: &[Obs], st: &mut Stats) -> CheckResult {
+    let cpu = cpu_mask();
     let mut digests = Vec::new();
     for mask in 0u8..4 {
         let eff = mask & cpu;
-        let obs = {
-            let _g = MaskGuard::set(mask);
-            workload(c).map_err(|e| format!("mask {mask:#04b}: {e}"))?
-        };
+        let obs = &obs[mask as usize];
         // nothing outside the mask
         if eff & MASK_AVX2 == 0 {
             ensure!(obs.trace & isa_bits(ISA_AVX2) == 0, "mask {mask:#04b} (avx2 not reported): AVX2 code was executed (trace {:#x}) via {:?}", obs.trace, c.via);
@@ -209,8 +213,204 @@ fn check(c: &MaskCase, st: &mut Stats) -> CheckResult {
     }
     st.classf("via", format!("{:?}", c.via));
     st.classf("decode", c.decode);
+    Ok(())
+}
+
+/// in-process variant: the mask is switched per thread between the four executions
+fn check(c: &MaskCase, st: &mut Stats) -> CheckResult {
+    if !INPROCESS_OK.load(std::sync::atomic::Ordering::Relaxed) {
+        st.class("skipped_detection_is_cached_per_process");
+        return Ok(());
+    }
+    let mut obs = Vec::new();
+    for mask in 0u8..4 {
+        let _g = MaskGuard::set(mask);
+        obs.push(workload(c).map_err(|e| format!("mask {mask:#04b}: {e}"))?);
+    }
+    judge(c, &obs, st)?;
     st.evaluations += 3; // one evaluation per (workload, mask)
     Ok(())
+}
+
+/// false when switching the mask inside one process has no effect (an implementation may cache the result
+/// of runtime detection process-wide: legitimate); the per-process part is then the only judge
+static INPROCESS_OK: std::sync::atomic::AtomicBool = std::sync::atomic::AtomicBool::new(true);
+
+// ----------------------------------------------------------------------
+// authoritative variant: every mask in its own fresh process, mask set before anything else runs
+
+struct PerProcess;
+
+#[derive(Serialize, Deserialize)]
+struct ChildJob {
+    mask: u8,
+    cases: Vec<MaskCase>,
+    big: Vec<BigXf>,
+}
+
+#[derive(Serialize, Deserialize)]
+struct ChildOut {
+    cases: Vec<Result<Obs, String>>,
+    big: Vec<(u32, u64)>,
+}
+
+/// entry point of `rsv c14-child`
+pub fn child_main() -> i32 {
+    use std::io::Read;
+    let mut text = String::new();
+    if std::io::stdin().read_to_string(&mut text).is_err() {
+        return 3;
+    }
+    let Ok(job) = serde_json::from_str::<ChildJob>(&text) else { return 3 };
+    // before any engine, table or detection is touched
+    reed_solomon_simd::verif_hooks::set_feature_mask(job.mask);
+    let cases = job.cases.iter().map(workload).collect();
+    let big = job.big.iter().map(big_observe).collect();
+    println!("{}", serde_json::to_string(&ChildOut { cases, big }).unwrap());
+    0
+}
+
+fn run_mask_child(job: &ChildJob) -> Result<ChildOut, String> {
+    use std::io::Write;
+    use std::process::{Command, Stdio};
+    let exe = std::env::current_exe().map_err(|e| format!("harness: current_exe: {e}"))?;
+    let mut child = Command::new(exe).arg("c14-child").stdin(Stdio::piped()).stdout(Stdio::piped()).stderr(Stdio::piped()).spawn().map_err(|e| format!("harness: spawn: {e}"))?;
+    let text = serde_json::to_string(job).unwrap();
+    let mut si = child.stdin.take().unwrap();
+    let writer = std::thread::spawn(move || {
+        let _ = si.write_all(text.as_bytes());
+    });
+    let out = child.wait_with_output().map_err(|e| format!("harness: wait: {e}"))?;
+    let _ = writer.join();
+    if !out.status.success() {
+        let err = String::from_utf8_lossy(&out.stderr);
+        let tail: String = err.chars().rev().take(400).collect::<String>().chars().rev().collect();
+        return Err(format!("child process with mask {:#04b} failed ({}): {tail}", job.mask, out.status));
+    }
+    serde_json::from_slice(&out.stdout).map_err(|e| format!("harness: unparsable child output: {e}"))
+}
+
+impl PartDyn for PerProcess {
+    fn name(&self) -> &'static str {
+        "masks_per_process"
+    }
+    fn run(&self, run: &mut Run) {
+        use proptest::strategy::ValueTree;
+        use proptest::test_runner::{Config, RngSeed, TestRunner};
+        if run.failed() {
+            return;
+        }
+        let t0 = std::time::Instant::now();
+        let n = run.cases(1_600, 30_000) as usize;
+        let nbig = run.cases(4, 60) as usize;
+        let mut runner = TestRunner::new(Config { rng_seed: RngSeed::Fixed(run.part_seed(self.name(), 0)), failure_persistence: None, ..Config::default() });
+        let strat = strategy(run.tier);
+        let bstrat = big_strategy(run.tier);
+        let cases: Vec<MaskCase> = (0..n).filter_map(|_| strat.new_tree(&mut runner).ok().map(|t| t.current())).collect();
+        let bigs: Vec<BigXf> = (0..nbig).filter_map(|_| bstrat.new_tree(&mut runner).ok().map(|t| t.current())).collect();
+        let batches = run.threads.max(1).min(cases.len().max(1));
+        let per = cases.len().div_ceil(batches);
+        let results: Vec<Result<(Stats, Option<(Value, String)>), String>> = std::thread::scope(|sc| {
+            let mut hs = Vec::new();
+            for (bi, chunk) in cases.chunks(per.max(1)).enumerate() {
+                // the big transforms travel with the first batches, one each (memory)
+                let big: Vec<BigXf> = bigs.iter().skip(bi).step_by(batches).cloned().collect();
+                hs.push(sc.spawn(move || -> Result<(Stats, Option<(Value, String)>), String> {
+                    let mut outs = Vec::new();
+                    for mask in 0u8..4 {
+                        let job = ChildJob { mask, cases: chunk.to_vec(), big: big.clone() };
+                        let bytes: usize = big.iter().map(|b| 2f64.powf(b.bytes_q as f64 / 4.0) as usize * 2).max().unwrap_or(0);
+                        outs.push(crate::runner::with_memory_budget(bytes + (64 << 20), || run_mask_child(&job))?);
+                    }
+                    let mut st = Stats::default();
+                    for (i, c) in chunk.iter().enumerate() {
+                        st.evaluations += 4;
+                        let mut obs = Vec::new();
+                        for (mask, o) in outs.iter().enumerate() {
+                            match &o.cases[i] {
+                                Ok(ob) => obs.push(ob.clone()),
+                                Err(e) => return Ok((st, Some((serde_json::to_value(c).unwrap(), format!("mask {mask:#04b}: {e}"))))),
+                            }
+                        }
+                        if st.samples.len() < 2 {
+                            st.samples.push(serde_json::to_value(c).unwrap());
+                        }
+                        if let Err(f) = judge(c, &obs, &mut st) {
+                            return Ok((st, Some((serde_json::to_value(c).unwrap(), f.msg))));
+                        }
+                    }
+                    for (i, b) in big.iter().enumerate() {
+                        st.evaluations += 4;
+                        let obs: Vec<(u32, u64)> = outs.iter().map(|o| o.big[i]).collect();
+                        if let Err(f) = judge_big(b, &obs, &mut st) {
+                            return Ok((st, Some((serde_json::to_value(b).unwrap(), f.msg))));
+                        }
+                    }
+                    Ok((st, None))
+                }));
+            }
+            hs.into_iter().map(|h| h.join().unwrap_or_else(|_| Err("harness: worker panicked".into()))).collect()
+        });
+        let mut stats = Stats::default();
+        let mut failure = None;
+        for r in results {
+            match r {
+                Ok((st, f)) => {
+                    stats.merge(st);
+                    if failure.is_none() {
+                        failure = f;
+                    }
+                }
+                Err(e) => {
+                    if crate::runner::is_harness_panic(&e) || e.starts_with("harness:") {
+                        run.inconclusive.push(format!("masks_per_process: {e}"));
+                    } else if failure.is_none() {
+                        failure = Some((Value::Null, e));
+                    }
+                }
+            }
+        }
+        // does switching the mask inside one process work? (if not, detection is cached: the in-process parts are skipped)
+        {
+            let probe = MaskCase { via: Via::Rs, cfg: Cfg { k: 3, r: 2, b: 64 }, data: DataSpec { mode: 0, seed: 7 }, recv: RecvSpec { n_mode: 0, pattern: 1, order: 0, seed: 7 }, decode: true };
+            let _ = {
+                let _g = MaskGuard::set(MASK_ALL);
+                workload(&probe)
+            };
+            let off = {
+                let _g = MaskGuard::set(0);
+                workload(&probe)
+            };
+            if let Ok(o) = off {
+                if o.trace != 0 && failure.is_none() {
+                    INPROCESS_OK.store(false, std::sync::atomic::Ordering::Relaxed);
+                    run.extra.insert("in_process_mask_switching".into(), "ineffective (runtime detection is cached per process); in-process parts skipped, per-process part decides".into());
+                }
+            }
+        }
+        run.record_part(self.name(), stats, false, "every mask in its own fresh process (mask set before anything else runs)", t0);
+        if let Some((case, msg)) = failure {
+            run.record_failure(self.name(), case, msg);
+        }
+    }
+    fn replay(&self, case: &Value) -> Result<(), String> {
+        let mut st = Stats::default();
+        if let Ok(c) = serde_json::from_value::<MaskCase>(case.clone()) {
+            let mut obs = Vec::new();
+            for mask in 0u8..4 {
+                let out = run_mask_child(&ChildJob { mask, cases: vec![c.clone()], big: vec![] })?;
+                obs.push(out.cases.into_iter().next().ok_or("no output")??);
+            }
+            return judge(&c, &obs, &mut st).map_err(|f| f.msg);
+        }
+        let b: BigXf = serde_json::from_value(case.clone()).map_err(|e| e.to_string())?;
+        let mut obs = Vec::new();
+        for mask in 0u8..4 {
+            let out = run_mask_child(&ChildJob { mask, cases: vec![], big: vec![b.clone()] })?;
+            obs.push(out.big[0]);
+        }
+        judge_big(&b, &obs, &mut st).map_err(|f| f.msg)
+    }
 }
 
 // ----------------------------------------------------------------------
@@ -231,36 +431,53 @@ fn big_strategy(t: Tier) -> BoxedStrategy<BigXf> {
 }
 
 fn check_big(c: &BigXf, st: &mut Stats) -> CheckResult {
+    if !INPROCESS_OK.load(std::sync::atomic::Ordering::Relaxed) {
+        st.class("skipped_detection_is_cached_per_process");
+        return Ok(());
+    }
     let bytes = 2f64.powf(c.bytes_q as f64 / 4.0) as usize;
-    crate::runner::with_memory_budget(bytes * 2 + (1 << 20), || check_big_inner(c, bytes, st))
+    crate::runner::with_memory_budget(bytes * 2 + (1 << 20), || {
+        let mut obs = Vec::new();
+        for mask in 0u8..4 {
+            let _g = MaskGuard::set(mask);
+            obs.push(big_observe(c));
+        }
+        judge_big(c, &obs, st)
+    })?;
+    st.evaluations += 3;
+    Ok(())
 }
 
-fn check_big_inner(c: &BigXf, bytes: usize, st: &mut Stats) -> CheckResult {
-    let cpu = (if Eng::Ssse3.available() { MASK_SSSE3 } else { 0 }) | (if Eng::Avx2.available() { MASK_AVX2 } else { 0 });
+/// ifft + fft + mul through a DefaultEngine built under the current mask: (trace, digest)
+fn big_observe(c: &BigXf) -> (u32, u64) {
+    let bytes = 2f64.powf(c.bytes_q as f64 / 4.0) as usize;
     let size = 1usize << c.size_log;
     let blocks = (bytes / size / 64).max(1);
-    let mut input = Buf::zeroed(size, blocks, 0);
+    let mut buf = Buf::zeroed(size, blocks, 0);
     // cheap non-zero content
     let mut x = c.seed | 1;
-    for blk in input.data.iter_mut() {
+    for blk in buf.data.iter_mut() {
         x ^= x << 13;
         x ^= x >> 7;
         x ^= x << 17;
         blk[..8].copy_from_slice(&x.to_le_bytes());
         blk[56..].copy_from_slice(&x.to_be_bytes());
     }
-    let mut digests = Vec::new();
+    let _ = take_trace();
+    prims::xform(Eng::Default, Xform::Ifft, &mut buf, 0, size, size, 0);
+    prims::xform(Eng::Default, Xform::Fft, &mut buf, 0, size, size, 0);
+    prims::mul(Eng::Default, &mut buf.data[..blocks], 4242);
+    (take_trace(), crate::runner::hash_of(&buf.data[..blocks.min(4096)]))
+}
+
+fn judge_big(c: &BigXf, obs: &[(u32, u64)], st: &mut Stats) -> CheckResult {
+    let cpu = cpu_mask();
+    let bytes = 2f64.powf(c.bytes_q as f64 / 4.0) as usize;
+    let size = 1usize << c.size_log;
+    let blocks = (bytes / size / 64).max(1);
     for mask in 0u8..4 {
         let eff = mask & cpu;
-        let mut buf = input.clone();
-        let trace = {
-            let _g = MaskGuard::set(mask);
-            let _ = take_trace();
-            prims::xform(Eng::Default, Xform::Ifft, &mut buf, 0, size, size, 0);
-            prims::xform(Eng::Default, Xform::Fft, &mut buf, 0, size, size, 0);
-            prims::mul(Eng::Default, &mut buf.data[..blocks], 4242);
-            take_trace()
-        };
+        let trace = obs[mask as usize].0;
         let best = if eff & MASK_AVX2 != 0 { Some(ISA_AVX2) } else if eff & MASK_SSSE3 != 0 { Some(ISA_SSSE3) } else { None };
         let allowed = match best {
             Some(isa) => trace_bit(isa, PRIM_FFT) | trace_bit(isa, PRIM_IFFT) | trace_bit(isa, PRIM_MUL),
@@ -272,12 +489,10 @@ fn check_big_inner(c: &BigXf, bytes: usize, st: &mut Stats) -> CheckResult {
                 blocks * 64, size * blocks * 64 >> 20
             );
         }
-        digests.push(crate::runner::hash_of(&buf.data[..blocks.min(4096)]));
         st.classf("mask", format!("{mask:02b}"));
     }
-    ensure!(digests.windows(2).all(|w| w[0] == w[1]), "results of large transforms differ between feature masks");
+    ensure!(obs.windows(2).all(|w| w[0].1 == w[1].1), "results of large transforms differ between feature masks");
     st.classf("working_set_MiB_log2", c.bytes_q as i64 / 4 - 20);
-    st.evaluations += 3;
-    st.nontrivial_case("big_transforms", c);
+    st.nontrivial_key(crate::runner::hash_of(c));
     Ok(())
 }
